@@ -66,6 +66,11 @@ PartialFailing(ev) ==
         names == {L.cells[i].name : i \in DOMAIN L.cells}
     IN
     Tagged("full", LibFailing(ev.full, M))
+    \* the default tolerance of every load is one database unit OF THE LOADED LIBRARY (also when a
+    \* target unit rescales it): logged in 1/1000 database unit
+    \cup (IF \A p \in {ev.full} \cup {ev.targets[k].proj : k \in DOMAIN ev.targets} \cup {ev.filters[k].proj : k \in DOMAIN ev.filters} :
+              \A i \in DOMAIN p.cells : \A q \in DOMAIN p.cells[i].paths : p.cells[i].paths[q].tolp = 1000
+          THEN {} ELSE {<<"summary", "default_tolerance_is_one_database_unit">>})
     \cup (IF ev.fd = 0 THEN {} ELSE {<<"file", "file_handle_leak">>})
     \* gds_info
     \cup Tagged("summary", Failing(<< <<"info_error", ev.info.err = 0>>,
